@@ -394,6 +394,18 @@ inductive Strategy where
   | shortR
   /-- every `x + r` has a zero first repr byte -/
   | shortXR
+  /-- ADAPTIVE forger against a verifier whose challenge hash omits the commitments `g_r`: it uses only the ENCODING of `Q`
+      (never `x`), fixes `enc_r = Enc(a)`, `enc_x_r = Enc(b)` for arbitrary `a, b`, computes the challenge over everything
+      except the `g_r`, and only then chooses `g_r = a·G` (bit 0, opens `a`) resp. `g_r = b·G − Q` (bit 1, opens `b`).
+      Such a verifier accepts every slot and `b − a` is not the discrete logarithm of `Q`.  The real `verify` (and this
+      model) hashes the `g_r`, so the forgery is rejected.
+      The other component classes have no adaptive attack of this kind (so there is no strategy for them):
+      `enc_x_r` / `enc_r` — the commitment `g_r` and the OTHER ciphertext are still hashed, so whichever side the bit opens
+      must have been fixed honestly in advance; leaving the unhashed unopened ciphertext as garbage keeps every slot of the
+      other bit value good, the proof stays decryptable (and a byte change there is what the tamper stream reports);
+      `label` — the label also keys every ciphertext (`m·L mod n`), and the ciphertexts are hashed;
+      `Q` — a slot opened on the `x + r` side forces `Q = s·G − g_r` with `g_r` and `Enc(s)` hashed. -/
+  | adaptiveGR
 deriving DecidableEq, Repr
 
 /-- a nonce whose repr starts with a zero byte (and is canonical): 32 tape bytes, first forced to 0, and for the
@@ -482,12 +494,54 @@ def advOpens (ch : Bytes) (wrongSide : List Nat) : Nat → List Made → List Na
       let b := if wrongSide.contains i then !b else b
       (if b then md.xr else md.r) :: advOpens ch wrongSide (i+1) rest
 
+/-- the slots of `Strategy.adaptiveGR` before the commitments are chosen: `(a, b, Enc(b), Enc(a))` -/
+def adaptivePairs (O : Query → m Bytes) (cp : CurveParams) (key : Bytes) (n L : Nat) (seed : Bytes) :
+    Nat → Tape → m (List (Nat × Nat × Bytes × Bytes) × Tape)
+  | 0, tape => pure ([], tape)
+  | k+1, tape => do
+      let (a, tape) := scalarRandom cp tape
+      let (b, tape) := scalarRandom cp tape
+      let encR ← encOrEmpty O key n L seed (cp.repr a)
+      let encXR ← encOrEmpty O key n L seed (cp.repr b)
+      let (rest, tape) ← adaptivePairs O cp key n L seed k tape
+      pure ((a, b, encXR, encR) :: rest, tape)
+
+/-- choose the commitments after the (weakened) challenge `ch` is known; `nq` = encoding of `−Q` -/
+def adaptiveCommit (O : Query → m Bytes) (cp : CurveParams) (nq ch : Bytes) :
+    Nat → List (Nat × Nat × Bytes × Bytes) → m (List Slot × List Nat)
+  | _, [] => pure ([], [])
+  | i, (a, b, encXR, encR) :: rest => do
+      let (slots, opens) ← adaptiveCommit O cp nq ch (i+1) rest
+      if bitOr0 ch i then do
+        let bG ← mulGen O cp b
+        let gR ← O (.ecAdd cp.curve bG nq)
+        pure ({ gR, encXR, encR } :: slots, b :: opens)
+      else do
+        let gR ← mulGen O cp a
+        pure ({ gR, encXR, encR } :: slots, a :: opens)
+
+/-- `Strategy.adaptiveGR`: `q` is all the forger knows about the secret -/
+def adaptiveGR (O : Query → m Bytes) (cp : CurveParams) (q : Bytes) (key : Bytes) (n : Nat) (label : Bytes)
+    (nslots : Nat) (seed : Bytes) (tape : Tape) : m Proof := do
+  let L ← labelInt O label
+  let nq ← O (.ecNeg cp.curve q)
+  let (pairs, _) ← adaptivePairs O cp key n L seed nslots tape
+  -- the challenge a verifier computes when it forgets to hash the commitments
+  let ch ← O (.sha256 (ascii "Verified-RSA-encryption" ++ q ++ pairs.flatMap (fun p => p.2.2.1 ++ p.2.2.2) ++ label))
+  let (slots, opens) ← adaptiveCommit O cp nq ch 0 pairs
+  pure { seed, slots, opens, param := nslots }
+
 /-- `advProver`: a forged proof with `nslots` slots and the number of grinding attempts (0 = none / exhausted) -/
 def advProver (O : Query → m Bytes) (cp : CurveParams) (x : Nat) (key : Bytes) (n : Nat) (label : Bytes)
     (nslots : Nat) (st : Strategy) (tape : Tape) : m (Proof × Nat) := do
   let (seed, tape) := Tape.take tape 32
   let seed := seed ++ List.replicate (32 - seed.length) 0
   let q ← mulGen O cp x
+  if st = .adaptiveGR then do
+    -- from here on only the encoding `q` is used, not `x`
+    let p ← adaptiveGR O cp q key n label nslots seed tape
+    pure (p, 0)
+  else
   let L ← labelInt O label
   let (made, tape) ← advSlots O cp x key n L seed st nslots 0 tape
   let sidesOf (which : List Nat) : List (Nat × Bool) :=
